@@ -25,6 +25,12 @@ def opts_for(backend):
         o.struct_payload = False       # F2: does not compile
         o.optional = True
         o.one_closed_enum_per_decl = True   # F3
+        # constructs whose C++ support is defective (known findings KF-C14-*) stay out of the random
+        # corpus so that they do not mask anything else; each has a witness under corpus/cxx
+        o.enum_arrays = False
+        o.struct_arrays = False
+        o.inheritance = False
+        o.narrow_counts = True
     if backend == "python":
         pass
     if backend in ("java", "common"):
@@ -211,8 +217,22 @@ def features_of(decl_chain, types=None):
             return types.decls[tid]["width"]
         return None
 
+    if decl_chain and decl_chain[0].get("parent_id"):
+        tags["child"] = True
     for d in reach:
         fs = d["fields"]
+        for f in fs:
+            tid = f.get("type_id") or f.get("enum_id")
+            is_enum = types is not None and tid in types.decls and types.decls[tid]["kind"] == "enum_declaration"
+            if f["kind"] == "array_field" and is_enum:
+                tags["enum_array"] = True
+            if f["kind"] == "fixed_field" and "enum_id" in f:
+                tags["fixed_enum"] = True
+            if f["kind"] in ("count_field", "size_field") and f["width"] >= 24:
+                tags["wide_count"] = True
+            if f["kind"] == "array_field" and types is not None and f.get("type_id") in types.decls and \
+                    types.decls[f["type_id"]]["kind"] == "struct_declaration":
+                tags["struct_array"] = True
         # a byte-aligned chunk of exactly 8 bits made of reserved fields only
         bits, only_reserved = 0, True
         for f in fs:
@@ -235,6 +255,8 @@ def features_of(decl_chain, types=None):
                 tags["payload_modifier"] = True
             if f["kind"] == "array_field" and f.get("size_modifier"):
                 tags["array_modifier"] = True
+            if f["kind"] == "array_field" and k + 1 < len(fs) and fs[k + 1]["kind"] == "padding_field":
+                tags["padded_array"] = True
             if f["kind"] == "array_field" and f["size"] is None and k + 1 < len(fs) and fs[k + 1]["kind"] == "padding_field":
                 if not any(g["kind"] in ("size_field", "count_field") and g["field_id"] == f["id"] for g in fs):
                     tags["unsized_padded_array"] = True
